@@ -2,7 +2,8 @@
 import json, os
 V = os.path.dirname(os.path.dirname(os.path.abspath(__file__)))
 reg = json.load(open(os.path.join(V, 'contracts', 'units.json')))
-NA = {
+NA = {}
+NA_OLD = {
  'C20': 'hyperproperty over two whole-process runs (per-process RandomState seeds, allocator, wall clock); a function contract cannot mention the hash seed and Verus/Kani model HashMap iteration as nondeterministic/fixed respectively.',
 }
 checks = []
